@@ -3,6 +3,7 @@ package gen
 import (
 	"sort"
 	"strconv"
+	"strings"
 
 	"pgregory.net/rapid"
 )
@@ -55,7 +56,7 @@ func collectSlots(v any, depth int, out *[]slot) {
 var HostileKeys = []string{"a.a", "x.x", "", "a.b", "default", "example", "x-ext", "$ref", "items", "properties", "0", "é", "a b", "paths", "allOf"}
 
 // MutateKinds lists the structural edits of Mutate.
-var MutateKinds = []string{"delete", "retype", "null", "rename", "transplant", "duplicate", "retarget-ref", "ref-with-sibling", "hostile-name"}
+var MutateKinds = []string{"delete", "retype", "null", "rename", "transplant", "duplicate", "retarget-ref", "ref-with-sibling", "hostile-name", "string-case", "blank-string", "plant-value"}
 
 // Mutate applies one structural edit to a decoded document (in place) and returns
 // the kind of edit and the depth at which it landed (0 = a top-level member); ok is
@@ -109,6 +110,60 @@ func Mutate(t *rapid.T, doc map[string]any) (kind string, depth int, ok bool) {
 	case "transplant":
 		src := pick("srcslot")
 		s.set(Clone(src.get()))
+	case "string-case", "blank-string":
+		// change the spelling of a string value: another case (keywords of the Swagger schema are case-sensitive) or the empty string
+		var strSlots []slot
+		for _, c := range slots {
+			if v, isStr := c.get().(string); isStr && v != "" {
+				strSlots = append(strSlots, c)
+			}
+		}
+		if len(strSlots) == 0 {
+			return kind, 0, false
+		}
+		c := strSlots[rapid.IntRange(0, len(strSlots)-1).Draw(t, "strslot")]
+		if kind == "blank-string" {
+			c.set("")
+			return kind, c.deep, true
+		}
+		v := c.get().(string)
+		up := strings.ToUpper(v)
+		if up == v {
+			up = strings.ToLower(v)
+		}
+		if up == v {
+			return kind, c.deep, false
+		}
+		c.set(up)
+		return kind, c.deep, true
+	case "plant-value":
+		// plant a default / example (any JSON value, nulls included) on something that looks like a schema, parameter, header or items object
+		var typed []slot
+		for _, c := range slots {
+			if m, isObj := c.get().(map[string]any); isObj {
+				if _, has := m["type"]; has {
+					typed = append(typed, c)
+				}
+			}
+		}
+		if len(typed) == 0 {
+			return kind, 0, false
+		}
+		c := typed[rapid.IntRange(0, len(typed)-1).Draw(t, "typedslot")]
+		m := c.get().(map[string]any)
+		var v any
+		switch rapid.IntRange(0, 4).Draw(t, "plantedkind") {
+		case 0:
+			v = []any{nil}
+		case 1:
+			v = []any{[]any{nil, Scalar(t)}, Scalar(t)}
+		case 2:
+			v = map[string]any{Name(t): nil, "items": Scalar(t)}
+		default:
+			v = Value(t, 6)
+		}
+		m[rapid.SampledFrom([]string{"default", "default", "example"}).Draw(t, "plantedkey")] = v
+		return kind, c.deep + 1, true
 	case "hostile-name":
 		// give a parameter / header / tag a hostile name (the value of a "name" member)
 		var nameSlots []slot
